@@ -86,9 +86,37 @@ func (r *Rng) Split(b []byte) [][]byte {
 type PieceReader struct {
 	P     [][]byte
 	Reads int
+	// EOFMode: 0 = decide from the content (about a third of the readers hand out their final bytes
+	// together with io.EOF, as the io.Reader contract allows and flate / cipher / HTTP body readers
+	// do), 1 = never, 2 = always.
+	EOFMode int
+	decided bool
+	withEOF bool
+}
+
+func (p *PieceReader) decide() {
+	if p.decided {
+		return
+	}
+	p.decided = true
+	switch p.EOFMode {
+	case 1:
+	case 2:
+		p.withEOF = true
+	default:
+		h := uint32(len(p.P))*7 + 3
+		for _, x := range p.P {
+			h = h*31 + uint32(len(x))
+			if len(x) > 0 {
+				h = h*31 + uint32(x[len(x)-1])
+			}
+		}
+		p.withEOF = h%3 == 0
+	}
 }
 
 func (p *PieceReader) Read(b []byte) (int, error) {
+	p.decide()
 	p.Reads++
 	for len(p.P) > 0 && len(p.P[0]) == 0 {
 		p.P = p.P[1:]
@@ -104,6 +132,9 @@ func (p *PieceReader) Read(b []byte) (int, error) {
 		p.P = p.P[1:]
 	} else {
 		p.P[0] = p.P[0][n:]
+	}
+	if p.withEOF && p.Remaining() == 0 {
+		return n, errEOF
 	}
 	return n, nil
 }
